@@ -130,17 +130,27 @@ static std::string g_peer_ip_str;  // dotted address of the current case's scrip
 static uint16_t g_hs_port = 0;     // remote port of the library-side socket of the current case
 
 // The library-side socket that talks to the current scripted peer (handshake or connection), or -1.
-static int lib_fd(Session& S) {
+static uint16_t sock_port(int fd, bool remote) {
+  sockaddr_in a{};
+  socklen_t n = sizeof a;
+  if (fd == -1 || (remote ? getpeername(fd, (sockaddr*)&a, &n) : getsockname(fd, (sockaddr*)&a, &n)) != 0) return 0;
+  return ntohs(a.sin_port);
+}
+// pair = the peer-side socket: only the library socket at the other end of THAT TCP connection counts
+// (after a failed outgoing attempt the retry's handshake has the same remote address)
+static int lib_fd(Session& S, int pair = -1) {
+  uint16_t want = pair == -1 ? 0 : sock_port(pair, true);
+  auto ok = [&](int fd) { return fd != -1 && (pair == -1 || (want != 0 && sock_port(fd, false) == want)); };
   auto& v = hs_container(torrent::manager->handshake_manager());
   for (auto itr = std::begin(v); itr != std::end(v); ++itr) {
     auto* h = &**itr;
     const sockaddr* sa = h->socket_address();
     if (sa != nullptr && sa->sa_family == AF_INET && ntohs(((const sockaddr_in*)sa)->sin_port) == g_hs_port &&
-        ((const sockaddr_in*)sa)->sin_addr.s_addr == g_peer_ip && h->is_open()) return h->file_descriptor();
+        ((const sockaddr_in*)sa)->sin_addr.s_addr == g_peer_ip && h->is_open() && ok(h->file_descriptor())) return h->file_descriptor();
   }
   for (Torrent* T : {T1, T2, T4}) {
     torrent::PeerConnectionBase* pcb = S.find_connection(T, g_peer_ip_str, g_hs_port);
-    if (pcb != nullptr && pcb->is_open()) return pcb->file_descriptor();
+    if (pcb != nullptr && pcb->is_open() && ok(pcb->file_descriptor())) return pcb->file_descriptor();
   }
   return -1;
 }
@@ -204,16 +214,20 @@ static void qpump(Session& S, WirePeer& w) {
     rounds++;
     bool inflight = !w.tx_pending.empty();
     uint64_t lr = 0;
-    int lfd = lib_fd(S), outq = 0;
+    int lfd = lib_fd(S, w.fd), outq = 0;
     if (w.fd != -1 && lfd != -1) {
       if (tcp_received(lfd, lr) && lr < w.tx_total - g_tx0) inflight = true;            // peer -> library not delivered yet
       if (ioctl(lfd, SIOCOUTQ, &outq) == 0 && outq > 0) inflight = true;                // library -> peer not delivered (the peer ACKs at once: TCP_QUICKACK)
     }
     if (!inflight) {
-      if (ltv::pump(S, {&w}) == 0) return;
-      if (round == 500 && getenv("C06_DEBUG")) fprintf(stderr, "qpump spinning: lfd=%d fd=%d eof=%d rx=%zu\n", lfd, w.fd, (int)w.eof, w.rx.size());
+      // settled when one more pump moves no byte in either direction and accepts nothing
+      uint64_t io0 = Session::io_bytes_moved(), rx0 = w.rx_total, tx0 = w.tx_total; int fd0 = w.fd;
+      ltv::pump(S, {&w});
+      if (Session::io_bytes_moved() == io0 && w.rx_total == rx0 && w.tx_total == tx0 && w.fd == fd0) return;
+      if (round == 300 && getenv("C06_DEBUG")) fprintf(stderr, "qpump moving: io %llu->%llu rx %llu->%llu tx %llu->%llu fd %d->%d hs=%zu\n", (unsigned long long)io0, (unsigned long long)Session::io_bytes_moved(), (unsigned long long)rx0, (unsigned long long)w.rx_total, (unsigned long long)tx0, (unsigned long long)w.tx_total, fd0, w.fd, S.handshake_count());
       continue;
     }
+    if (round == 300 && getenv("C06_DEBUG")) fprintf(stderr, "qpump inflight: lfd=%d fd=%d lr=%llu tx=%llu tx0=%llu outq=%d pending=%zu eof=%d\n", lfd, w.fd, (unsigned long long)lr, (unsigned long long)w.tx_total, (unsigned long long)g_tx0, outq, w.tx_pending.size(), (int)w.eof);
     struct timespec ts{0, 1000000};
     nanosleep(&ts, nullptr);
   }
@@ -497,6 +511,7 @@ static std::string run_case(Session& S, const std::string& line) {
   auto f = split_ws(line);
   if (f.size() < 5) return "BADCASE";
   g_case_no++;
+  g_tx0 = 0;
   g_log.clear();
   int hs = std::stoi(f[1]), st = std::stoi(f[2]);
   bool chk = f[3] == "1";
@@ -558,6 +573,7 @@ static std::string run_case(Session& S, const std::string& line) {
       w.rx.clear();
       w.eof = false;
       w.tx_pending.clear();
+      g_tx0 = w.tx_total;    // byte counting restarts with the next connection
       qpump(S, w);
       wait_accept(S, w);     // a retry the library has dialled
       qpump(S, w);
